@@ -6,6 +6,7 @@ import (
 	"io"
 	"net"
 	"reflect"
+	"runtime"
 	"strings"
 	"time"
 )
@@ -325,3 +326,11 @@ func (p *tPool) Put(v interface{}) {
 }
 
 func joinEvs(evs []string) string { return strings.Join(evs, " ") }
+
+type runtimeMem struct{ total uint64 }
+
+func (m *runtimeMem) read() {
+	var ms runtime.MemStats
+	runtime.ReadMemStats(&ms)
+	m.total = ms.TotalAlloc
+}
